@@ -76,7 +76,8 @@ func (c *PublishHeader) WriteHTMLTo(w io.Writer) (int64, error) {
 	}
 
 	if c.options.ShowSurnames {
-		badge := core.NewCountBadge(getSurnames(c.document).Len())
+		badge := core.NewCountBadge(getSurnames(c.document,
+			c.options.LivingVisibility).Len())
 		item := core.NewNavItem(
 			core.NewComponents(core.NewText("Surnames "), badge),
 			c.selectedTab == selectedSurnamesTab,
@@ -122,20 +123,29 @@ func (c *PublishHeader) WriteHTMLTo(w io.Writer) (int64, error) {
 
 var surnames = gedcom.NewStringSet()
 
-// surnamesDocument is the document that surnames was collected from. The pages
-// are rendered by several goroutines, surnamesMutex makes sure that only one of
-// them collects the surnames and that nobody sees them half collected.
+// surnamesDocument and surnamesVisibility are the document and the visibility
+// that surnames was collected for. The pages are rendered by several
+// goroutines, surnamesMutex makes sure that only one of them collects the
+// surnames and that nobody sees them half collected.
 var surnamesDocument *gedcom.Document
+var surnamesVisibility LivingVisibility
 var surnamesMutex sync.Mutex
 
-func getSurnames(document *gedcom.Document) *gedcom.StringSet {
+// getSurnames returns the surnames of the individuals that are shown with the
+// visibility. The surname of somebody who is living and not shown must not
+// appear in the list of surnames (or be counted in the header).
+func getSurnames(document *gedcom.Document, visibility LivingVisibility) *gedcom.StringSet {
 	surnamesMutex.Lock()
 	defer surnamesMutex.Unlock()
 
-	if surnamesDocument != document {
+	if surnamesDocument != document || surnamesVisibility != visibility {
 		documentSurnames := gedcom.NewStringSet()
 
 		for _, individual := range document.Individuals() {
+			if isHiddenLiving(individual, visibility) {
+				continue
+			}
+
 			surname := individual.Name().Surname()
 			if surname != "" {
 				documentSurnames.Add(surname)
@@ -144,7 +154,31 @@ func getSurnames(document *gedcom.Document) *gedcom.StringSet {
 
 		surnames = documentSurnames
 		surnamesDocument = document
+		surnamesVisibility = visibility
 	}
 
 	return surnames
+}
+
+// forgetSurnames makes the next getSurnames collect the surnames again.
+func forgetSurnames() {
+	surnamesMutex.Lock()
+	defer surnamesMutex.Unlock()
+
+	surnamesDocument = nil
+}
+
+// isHiddenLiving is true for a living individual when living individuals are
+// hidden or replaced by placeholders.
+func isHiddenLiving(individual *gedcom.IndividualNode, visibility LivingVisibility) bool {
+	if individual == nil || !individual.IsLiving() {
+		return false
+	}
+
+	switch visibility {
+	case LivingVisibilityHide, LivingVisibilityPlaceholder:
+		return true
+	}
+
+	return false
 }
